@@ -238,6 +238,23 @@ class InlinePass(ir.passes.InPlacePass):
                     output.name = _make_unique_name(
                         output_name, new_call_stack, self._used_value_names
                     )
+            # Values defined by the subgraphs of the inlined node (their formal inputs and
+            # initializers) end up in the calling context too and must not shadow or collide
+            # with the names in use there.
+            for attr in node.attributes.values():
+                if attr.is_ref():
+                    continue
+                if attr.type == ir.AttributeType.GRAPH:
+                    subgraphs = [attr.as_graph()]
+                elif attr.type == ir.AttributeType.GRAPHS:
+                    subgraphs = list(attr.as_graphs())
+                else:
+                    continue
+                for subgraph in subgraphs:
+                    for value in (*subgraph.inputs, *subgraph.initializers.values()):
+                        value.name = _make_unique_name(
+                            value.name or "val", new_call_stack, self._used_value_names
+                        )
             # Update context in case the new node is itself a call node that will be inlined.
             self._node_context[node] = new_call_stack
 
